@@ -21,10 +21,12 @@ def scratch(repo, tag):
     return d
 
 
-def kani_env(verif):
+def kani_env(verif, pid=None):
     env = dict(os.environ)
     env["CARGO_NET_OFFLINE"] = "true"
-    env["CARGO_TARGET_DIR"] = os.path.join(verif, CACHE_TARGET)
+    # one target directory per property: cargo names the artifacts independently of the scratch path, so checks of different
+    # properties (different harness modules) must not share one; checks of the same property take turns (lock in driver.py)
+    env["CARGO_TARGET_DIR"] = os.path.join(verif, CACHE_TARGET, pid) if pid else os.path.join(verif, CACHE_TARGET)
     return env
 
 
@@ -119,7 +121,7 @@ def run_unit(pid, u, d, verif, tier):
                label="")
     logp = os.path.join(d, "kani_%s.log" % u["name"])
     with open(logp, "w") as lf:
-        pr = subprocess.Popen(cmd, cwd=d, env=kani_env(verif), stdout=lf, stderr=subprocess.STDOUT, start_new_session=True)
+        pr = subprocess.Popen(cmd, cwd=d, env=kani_env(verif, pid), stdout=lf, stderr=subprocess.STDOUT, start_new_session=True)
         try:
             rc = pr.wait(timeout=timeout)
         except subprocess.TimeoutExpired:
@@ -175,7 +177,7 @@ def warm(repo, verif):
         lib = os.path.join(d, "src", "lib.rs")
         with open(lib, "a") as f:
             f.write("\n#[cfg(kani)]\nmod verif_kani_warm { #[kani::proof] fn warm() { let x: u8 = kani::any(); assert!(x == x); } }\n")
-        p = subprocess.run(["cargo", "kani", "--exact", "--harness", "verif_kani_warm::warm"], cwd=d, env=kani_env(verif),
+        p = subprocess.run(["cargo", "kani", "--exact", "--harness", "verif_kani_warm::warm"], cwd=d, env=kani_env(verif, "C15"),
                            capture_output=True, text=True, timeout=3000)
         if "VERIFICATION:- SUCCESSFUL" not in p.stdout:
             print(p.stdout[-1500:], p.stderr[-1500:])
